@@ -81,6 +81,8 @@ pub struct Families {
     pub seeded_critical: bool,
     /// pinned: one comment of each shape after every token of the small corpus files
     pub comment_enum: bool,
+    /// seeded generated programs are also evaluated with a statement-aligned range
+    pub seeded_ranges: bool,
     /// pinned: degenerate programs (empty, whitespace, comment-only, shebang-only, one token …)
     pub tiny: bool,
     /// pinned: every corpus file rewritten with CRLF and with mixed line endings
@@ -356,6 +358,29 @@ impl Work {
                         presig: None,
                     },
                 );
+                // a statement-aligned range over the same program (range formatting takes the
+                // block-only paths of the formatter)
+                if fam.seeded_ranges && i % 3 == 0 {
+                    if let Some(ast) = fmt::parse(&prog, &base) {
+                        let infos = crate::stmts::collect(&ast);
+                        if !infos.is_empty() {
+                            let a = &infos[rng.below(infos.len())];
+                            let b = &infos[rng.below(infos.len())];
+                            let (s0, e0) = (a.start.min(b.start), a.end.max(b.end));
+                            f(
+                                ctx,
+                                &Eval {
+                                    id: format!("gen:{}:{}:r{}-{}", ctx.seed, i, s0, e0),
+                                    src: prog.clone(),
+                                    cfg: base.clone(),
+                                    range: Some((Some(s0), Some(e0))),
+                                    pinned: false,
+                                    presig: None,
+                                },
+                            );
+                        }
+                    }
+                }
                 if !fam.seeded_critical {
                     return;
                 }
